@@ -198,6 +198,142 @@ func init() {
 			out = append(out, "def ipServerRestoresBufAtLoopTop : Bool := false")
 			broken("C09: runIPServer: the receive loop no longer restores buf/oob to full capacity as its first statements (a rejected datagram would leave the buffer shrunk)")
 		}
+		// per-datagram request state: the structs the decoders fill (`ntp.DecodePacket(&X, …)`,
+		// `nts.DecodePacket(&X, …)`, `nts.ProcessRequest(…, &X)`) and the server cookie assigned
+		// from `Decrypt` are declared inside the body of the receive loop, before their use, so
+		// that every datagram starts from zero values (nts.DecodePacket appends to pkt.Cookies;
+		// a struct that outlives the iteration would carry the cookies of earlier datagrams).
+		for _, fn := range []struct{ name, def string }{
+			{"runIPServer", "ipServerRequestStateInLoop"},
+			{"runSCIONServer", "scionServerRequestStateInLoop"},
+		} {
+			ok, why := c09RequestStateInLoop(findFunc(files, fn.name))
+			if ok {
+				out = append(out, fmt.Sprintf("def %s : Bool := true", fn.def))
+			} else {
+				out = append(out, fmt.Sprintf("def %s : Bool := false", fn.def))
+				broken("C09: " + fn.name + ": " + why)
+			}
+		}
 		return out
 	})
+}
+
+// c09RequestStateInLoop: see the comment at its call.
+func c09RequestStateInLoop(fd *ast.FuncDecl) (bool, string) {
+	if fd == nil || fd.Body == nil {
+		return false, "function not found"
+	}
+	isPkgCall := func(call *ast.CallExpr, pkg, name string) bool {
+		sel, ok := call.Fun.(*ast.SelectorExpr)
+		if !ok || sel.Sel.Name != name {
+			return false
+		}
+		id, ok := sel.X.(*ast.Ident)
+		return ok && id.Name == pkg
+	}
+	hasNtsDecode := func(n ast.Node) bool {
+		found := false
+		ast.Inspect(n, func(m ast.Node) bool {
+			if call, ok := m.(*ast.CallExpr); ok && isPkgCall(call, "nts", "DecodePacket") {
+				found = true
+			}
+			return !found
+		})
+		return found
+	}
+	// the outermost endless `for` that contains the NTS branch = the receive loop
+	var loop *ast.ForStmt
+	ast.Inspect(fd.Body, func(n ast.Node) bool {
+		if loop != nil {
+			return false
+		}
+		if fs, ok := n.(*ast.ForStmt); ok && fs.Init == nil && fs.Cond == nil && fs.Post == nil && hasNtsDecode(fs.Body) {
+			loop = fs
+			return false
+		}
+		return true
+	})
+	if loop == nil {
+		return false, "receive loop with the NTS branch not found"
+	}
+	type use struct {
+		name string
+		pos  token.Pos
+	}
+	var uses []use
+	addrOf := func(x ast.Expr) (string, bool) {
+		u, ok := x.(*ast.UnaryExpr)
+		if !ok || u.Op != token.AND {
+			return "", false
+		}
+		id, ok := u.X.(*ast.Ident)
+		if !ok {
+			return "", false
+		}
+		return id.Name, true
+	}
+	ast.Inspect(loop.Body, func(n ast.Node) bool {
+		switch v := n.(type) {
+		case *ast.CallExpr:
+			for _, f := range []struct {
+				pkg, name string
+				arg       int
+			}{{"ntp", "DecodePacket", 0}, {"nts", "DecodePacket", 0}, {"nts", "ProcessRequest", 2}} {
+				if isPkgCall(v, f.pkg, f.name) {
+					if len(v.Args) <= f.arg {
+						uses = append(uses, use{"?" + f.name, v.Pos()})
+					} else if name, ok := addrOf(v.Args[f.arg]); ok {
+						uses = append(uses, use{name, v.Pos()})
+					} else {
+						uses = append(uses, use{"?" + f.name, v.Pos()})
+					}
+				}
+			}
+		case *ast.AssignStmt:
+			if len(v.Rhs) == 1 && len(v.Lhs) >= 1 && v.Tok == token.ASSIGN {
+				if call, ok := v.Rhs[0].(*ast.CallExpr); ok {
+					if sel, ok := call.Fun.(*ast.SelectorExpr); ok && sel.Sel.Name == "Decrypt" {
+						if id, ok := v.Lhs[0].(*ast.Ident); ok {
+							uses = append(uses, use{id.Name, v.Pos()})
+						}
+					}
+				}
+			}
+		}
+		return true
+	})
+	if len(uses) < 4 {
+		return false, fmt.Sprintf("expected the decoders' request structs and the server cookie in the receive loop, found %d uses", len(uses))
+	}
+	declaredBefore := func(name string, pos token.Pos) bool {
+		found := false
+		ast.Inspect(loop.Body, func(n ast.Node) bool {
+			switch v := n.(type) {
+			case *ast.DeclStmt:
+				if gd, ok := v.Decl.(*ast.GenDecl); ok && gd.Tok == token.VAR && v.Pos() < pos {
+					for _, sp := range gd.Specs {
+						if vs, ok := sp.(*ast.ValueSpec); ok {
+							for _, id := range vs.Names {
+								if id.Name == name && len(vs.Values) == 0 {
+									found = true // `var X T`: the zero value, every iteration
+								}
+							}
+						}
+					}
+				}
+			}
+			return true
+		})
+		return found
+	}
+	for _, u := range uses {
+		if u.name[0] == '?' {
+			return false, "unexpected argument shape of " + u.name[1:]
+		}
+		if !declaredBefore(u.name, u.pos) {
+			return false, fmt.Sprintf("the request state %q is not declared (zero-valued) inside the receive loop body: it would carry what earlier datagrams left in it (nts.DecodePacket appends to pkt.Cookies)", u.name)
+		}
+	}
+	return true, ""
 }
